@@ -897,6 +897,22 @@ func (e *Engine) localValue(fr *Frame, s *State, lr LocalRef, head *ssa.BasicBlo
 		}
 		v := e.load(s, fr.vals[a], types.Typ[types.Int]).(T)
 		return T{fmt.Sprintf("(+ %s 1)", v.S), sInt}
+	case "loopi1", "loopi2", "loopi3", "loopi4", "loopi5", "loopi6", "loopi7", "loopi8", "loopi9":
+		// the current range index of an enclosing loop, named by its ordinal
+		want := int(lr.Name[5] - '0')
+		var a *ssa.Alloc
+		for h, ord := range e.loops(fr.fn).ordinal {
+			if ord == want {
+				a = e.rangeIndexAlloc(h)
+			}
+		}
+		if a == nil {
+			e.unsupported("%s: loop %d is not a range-over-slice loop", lr.Name, want)
+		}
+		if _, ok := fr.vals[a]; !ok {
+			e.unsupported("%s: loop %d has not been entered", lr.Name, want)
+		}
+		return e.load(s, fr.vals[a], types.Typ[types.Int])
 	case "loopx":
 		x := e.rangeOperand(head)
 		if x == nil {
